@@ -260,9 +260,10 @@ def _run(ctx, case, s, classes, state):
                 classes.add("after-%s:%d" % (state["after"], t))
         replies = r.replies
         calls = s.calls_since(n0)
-        if 52 in [t for t, _ in replies] or s.authed():
+        if 52 in [t for t, _ in replies]:
             # the generated policy never approves in this phase; granting is C14's subject, but
-            # everything after it would not be "before authentication"
+            # everything after a USERAUTH_SUCCESS would not be "before authentication". (Internal
+            # "authenticated" flags are deliberately NOT consulted: the phase is defined by the wire.)
             ctx.inconc("authenticated-in-pre-phase")
             classes.add("unexpected-auth")
             return True
